@@ -65,26 +65,57 @@ def perr(sf):
 def gen_info_case(rng):
     u = next(_uid)
     names = [f"a{u}", f"b{u}"]
-    n = 3
-    meas = {m: dy(rng, nonzero=rng.random() < 0.8) for m in range(n) if rng.random() < 0.7}
+    n = 12   # indices with two digits: every place that prints or parses "q<i>" must cope
+    kind = rng.choice(["sym", "sym", "sym", "sym", "arr", "arr2", "cplx", "lit", "litarr"])
+    cval = (lambda: complex(dy(rng), dy(rng))) if kind == "cplx" else (lambda: dy(rng, nonzero=rng.random() < 0.8))
+    meas = {m: cval() for m in INFO_MODES if rng.random() < 0.7}
     free = {}
     for nm in names:
         st = rng.choice(["val", "val", "val", "default", "both", "none"])
         free[nm] = dict(val=dy(rng, nonzero=rng.random() < 0.8) if st in ("val", "both") else None,
                         default=dy(rng, nonzero=rng.random() < 0.8) if st in ("default", "both") else None)
-    kind = rng.choice(["sym", "sym", "sym", "arr", "lit", "litarr"])
     depth = rng.randint(1, 4)
-    mk = lambda: px.gen_expr(rng, depth, names, list(range(n)))
+    mk = lambda: px.gen_expr(rng, depth, names, INFO_MODES)
     if kind == "sym":
         p = {"one": mk()}
+    elif kind == "cplx":
+        p = {"one": px.gen_poly(rng, min(depth, 3), names, INFO_MODES)}
     elif kind == "arr":
         p = {"arr": [mk() if rng.random() < 0.7 else px.num(dy(rng)) for _ in range(rng.randint(2, 3))]}
+    elif kind == "arr2":
+        mk2 = lambda: px.gen_expr(rng, min(depth, 2), names, INFO_MODES)
+        p = {"arr2": [[mk2() if rng.random() < 0.5 else px.num(dy(rng)) for _ in range(2)] for _ in range(rng.randint(1, 2))]}
     elif kind == "lit":
         p = {"one": px.num(dy(rng))}
     else:
         p = {"arr": [px.num(dy(rng)) for _ in range(rng.randint(1, 3))]}
+    meas = {m: ([v.real, v.imag] if isinstance(v, complex) else v) for m, v in meas.items()}   # JSON-serialisable
     return dict(kind=kind, n=n, names=names, meas=meas, free=free, p=p, decoy=rng.random() < 0.5,
-                valform=rng.choice(["arr1", "arr1", "float", "arr11"]))
+                valform=rng.choice(["arr1", "arr1", "float", "arr11"]),
+                dtype="f32" if kind == "sym" and rng.random() < 0.15 else None)
+
+
+INFO_MODES = [0, 1, 2, 9, 10, 11]
+
+
+def meas_env(case):
+    return {int(k): (complex(*v) if isinstance(v, list) else v) for k, v in case["meas"].items()}
+
+
+def trees_of(p):
+    if "one" in p:
+        return [p["one"]]
+    if "arr" in p:
+        return list(p["arr"])
+    return [t for row in p["arr2"] for t in row]
+
+
+def scalars_of(pj):
+    if "one" in pj:
+        return [pj["one"]]
+    if "arr" in pj:
+        return list(pj["arr"])
+    return [t for row in pj["arr2"] for t in row]
 
 
 def effective_free(free):
@@ -97,8 +128,16 @@ def build_info(sf, case):
     fobj = {nm: prog.params(nm) for nm in case["names"]}
     q = prog.register
     lit = case["kind"] in ("lit", "litarr")
+    import sympy
     if "one" in case["p"]:
         obj = px.numval(case["p"]["one"]) if lit else px.to_sympy(case["p"]["one"], fobj, q)
+    elif "arr2" in case["p"]:
+        rows = [[px.numval(t) if "n" in t else px.to_sympy(t, fobj, q) for t in row] for row in case["p"]["arr2"]]
+        symb = any(isinstance(x, sympy.Basic) for row in rows for x in row)
+        obj = np.empty((len(rows), 2), dtype=object if symb else float)
+        for i, row in enumerate(rows):
+            for j, x in enumerate(row):
+                obj[i, j] = x
     else:
         items = [px.numval(t) if "n" in t else px.to_sympy(t, fobj, q) for t in case["p"]["arr"]]
         import sympy
@@ -109,9 +148,8 @@ def build_info(sf, case):
             for r in dq:
                 r.par  # noqa: B018  (another program touches the same subsystem indices)
         decoy.reg_refs[0].val = np.array([123.0])
-    for m, v in case["meas"].items():
-        m = int(m)
-        prog.reg_refs[m].val = {"arr1": np.array([v]), "float": float(v), "arr11": np.array([[v]])}[case["valform"]]
+    for m, v in meas_env(case).items():
+        prog.reg_refs[m].val = {"arr1": np.array([v]), "float": v, "arr11": np.array([[v]])}[case["valform"]]
     for nm, st in case["free"].items():
         fobj[nm].val = st["val"]
         fobj[nm].default = st["default"]
@@ -128,10 +166,21 @@ def info_one(ctx, sf, case, reqs, pend):
         ctx.tally("info_unsupported_sympy_node")
         return
     env_f = effective_free(case["free"])
-    env_m = {int(k): v for k, v in case["meas"].items()}
+    env_m = meas_env(case)
+    cplx = case["kind"] == "cplx"
+    f32 = case.get("dtype") == "f32"
+    rp = dict(kind="info", case=case)
     try:
-        val = par_evaluate(obj)
+        val = par_evaluate(obj, dtype=np.float32) if f32 else par_evaluate(obj)
         real = ("ok", val)
+        # history independence: evaluating another parameter in between and evaluating again gives the same
+        try:
+            par_evaluate(prog.reg_refs[0].par * 2 + 1)
+        except PE:
+            pass
+        again = par_evaluate(obj, dtype=np.float32) if f32 else par_evaluate(obj)
+        if not (np.shape(again) == np.shape(val) and np.all(np.asarray(again) == np.asarray(val))):
+            ctx.fail("evaluate-not-repeatable", f"par_evaluate gave {val}, then {again} for the same parameter", rp)
     except PE as e:
         real = ("err", "ParameterError")
     except Exception as e:  # any other exception class is not what the property allows
@@ -140,23 +189,37 @@ def info_one(ctx, sf, case, reqs, pend):
     foreign = [r.ind for r in deps if prog.reg_refs.get(r.ind) is not r]
     sym = bool(par_is_symbolic(obj))
     # --- oracle against the independent evaluator on the generated tree
-    trees = [case["p"]["one"]] if "one" in case["p"] else case["p"]["arr"]
-    walked = [s.get("sym") for s in ([pj["one"]] if "one" in pj else pj["arr"])]
+    trees = trees_of(case["p"])
+    walked = [s.get("sym") for s in scalars_of(pj)]
     ctx.oracle_cases += 1
     nontriv = any(px.atoms(t, "f") or px.atoms(t, "m") for t in trees)
-    ctx.count("info_" + case["kind"], case, nontriv, sample=case)
-    rp = dict(kind="info", case=case)
+    ctx.count("info_" + case["kind"] + ("_f32" if f32 else ""), case, nontriv, sample=case)
+    # par_str prints measured parameters as q<index> and free parameters as {name}: the printed atoms are the atoms
+    if "one" in pj and "sym" in pj["one"]:
+        import re
+        from strawberryfields.parameters import par_str
+        txt = par_str(obj)
+        want_m = {f"q{m}" for m in px.atoms(pj["one"]["sym"], "m")}
+        want_f = set(px.atoms(pj["one"]["sym"], "f"))
+        if set(re.findall(r"q\d+", txt)) != want_m or set(re.findall(r"\{(\w+)\}", txt)) != want_f:
+            ctx.fail("par-str-atoms", f"par_str gives {txt!r}, the parameter has measured atoms {sorted(want_m)} and "
+                     f"free atoms {sorted(want_f)}", rp)
+    # (only for sums and products of atoms: a constant subexpression such as cosh(2) is evaluated in float64)
+    if f32 and real[0] == "ok" and any(w is not None and (px.atoms(w, "f") or px.atoms(w, "m")) and
+                                       '"fn"' not in json.dumps(w) and '"pow"' not in json.dumps(w) for w in walked):
+        if np.asarray(real[1]).dtype != np.float32:
+            ctx.fail("dtype-ignored", f"par_evaluate(p, dtype=float32) returns {np.asarray(real[1]).dtype}", rp)
     if foreign:
         ctx.fail("regref-of-another-program", f"par_regref_deps returns RegRefs {foreign} that are not the "
                  f"RegRefs of the Program the parameter was built in (another Program touched q[i].par)", rp)
     try:
         ref = [px.fold(t, env_f, env_m) for t in trees]
-        ok_cond = all(px.well_conditioned(t, env_f, env_m) for t in trees)
+        ok_cond = all(px.well_conditioned(t, env_f, env_m, cplx=cplx) for t in trees)
         if ok_cond:
-            ref = ref[0] if "one" in case["p"] else np.array(ref, dtype=float)
+            ref = ref[0] if "one" in case["p"] else np.array(ref)
             if real[0] != "ok":
                 ctx.fail("evaluate-raises-though-bound", f"all atoms have values but par_evaluate gives {real}", rp)
-            elif not px.close(ref, np.asarray(real[1], dtype=float).reshape(np.shape(ref))):
+            elif not px.close(ref, np.asarray(real[1]).reshape(np.shape(ref)), 2e-4 if f32 else 1e-9):
                 ctx.fail("evaluate-wrong-value", f"par_evaluate={real[1]} independent evaluation={ref}", rp)
         ctx.tally("info_bound")
     except px.Unbound as ub:
@@ -168,9 +231,12 @@ def info_one(ctx, sf, case, reqs, pend):
             ctx.fail("no-parameter-error", f"atom {ub.what} has no value but par_evaluate gives {real}", rp)
     # --- correspondence request
     if ctx.proof_ok:
-        reqs.append({"op": "param.info", "p": pj,
-                     "free": [[k, rat(v)] for k, v in env_f.items() if v is not None],
-                     "meas": [[m, rat(v)] for m, v in env_m.items()]})
+        rq = {"op": "param.info", "p": pj,
+              "free": [[k, px.val_tree(v)] for k, v in env_f.items() if v is not None],
+              "meas": [[m, px.val_tree(v)] for m, v in env_m.items()]}
+        if f32:
+            rq["dtype"] = "f32"
+        reqs.append(rq)
         pend.append(("info", case, dict(real=real, deps=sorted({r.ind for r in deps}), sym=sym)))
 
 
@@ -192,14 +258,14 @@ def info_compare(ctx, case, got, model):
             ctx.disagree("par_evaluate", case, "ok", str(real))
             return
         env_f = effective_free(case["free"])
-        env_m = {int(k): v for k, v in case["meas"].items()}
-        trees = [case["p"]["one"]] if "one" in case["p"] else case["p"]["arr"]
-        if not all(px.well_conditioned(t, env_f, env_m) for t in trees):
+        env_m = meas_env(case)
+        trees = trees_of(case["p"])
+        if not all(px.well_conditioned(t, env_f, env_m, cplx=case["kind"] == "cplx") for t in trees):
             ctx.tally("info_illconditioned_skipped")
             return
         mv = px.pval_fold(model["eval"]["ok"])
-        rv = np.asarray(real[1], dtype=float)
-        if not px.close(mv, rv.reshape(np.shape(mv))):
+        rv = np.asarray(real[1])
+        if not px.close(mv, rv.reshape(np.shape(mv)), 2e-4 if case.get("dtype") else 1e-9):
             ctx.disagree("par_evaluate", case, np.asarray(mv).tolist(), rv.tolist())
 
 
@@ -326,16 +392,16 @@ TWO = {"CXgate", "CZgate", "S2gate", "MZgate", "sMZgate"}
 
 
 def consts(sf):
-    return {"#isq2h": 1 / np.sqrt(2 * sf.hbar), "#pi2": np.pi / 2, "#pi4": np.pi / 4, "#half": 0.5, "#one": 1.0,
-            "#mone": -1.0, "#zero": 0.0, "#two": 2.0}
+    """values of the holes the generated templates keep symbolic"""
+    return {"#pi": float(np.pi), "#hbar": float(sf.hbar)}
 
 
 def gen_decomp_case(rng):
     u = next(_uid)
     cls = rng.choice(list(TEMPLATES))
     names = [f"c{u}"]
-    n = 4
-    meas = {m: dy(rng, -8, 8) for m in range(n)}
+    n = 12
+    meas = {m: dy(rng, -8, 8) for m in INFO_MODES}
     free = {names[0]: dy(rng, -8, 8)}
     ps = []
     for _ in range(TEMPLATES[cls]):
@@ -343,13 +409,13 @@ def gen_decomp_case(rng):
             ps.append(px.num(dy(rng, -8, 8)))
         else:
             for _try in range(50):
-                t = px.gen_expr(rng, rng.randint(0, 2), names, list(range(n)), p_atom=0.5)
+                t = px.gen_expr(rng, rng.randint(0, 2), names, INFO_MODES, p_atom=0.5)
                 if px.well_conditioned(t, free, meas, 50) and abs(px.fold(t, free, meas)) > 1e-3:
                     break
             else:
                 t = {"m": 0}
             ps.append(t)
-    regs = rng.sample(range(n), 2 if cls in TWO else 1)
+    regs = rng.sample([0, 3, 10, 11, 5], 2 if cls in TWO else 1)
     return dict(cls=cls, names=names, n=n, meas=meas, free=free, ps=ps, regs=regs,
                 dagger=cls != "DisplacedSqueezed" and rng.random() < 0.4)
 
